@@ -36,6 +36,10 @@ MUTANTS = [
  {"id": "probe-panic-cut-after-first-non-digit-byte", "kind": "break", "edits": [(P, "    fn is_simple_char(c: char) -> bool {", "    #[allow(dead_code)]\n    fn lead(s: &str) -> &str {\n        let end = s.bytes().position(|b| !b.is_ascii_digit()).unwrap_or(0);\n        &s[..end + 1]\n    }\n\n    fn is_simple_char(c: char) -> bool {")], "expect": ["PANIC"]},
  {"id": "table-form-benign", "kind": "benign", "edits": [{"patch": "/verif/benign/dewey-1/patch.diff"}]},
  {"id": "table-form-empty-literal-hangs", "kind": "break", "edits": [{"patch": "/verif/benign/dewey-1/patch.diff"}, (D, '("pl", 0)]', '("", 0)]')], "expect": ["TERM@dewey::DeweyVersion::new"]},
+ {"id": "slicepat-form-benign", "kind": "benign", "edits": [{"patch": "/verif/benign/m-dewey-2/patch.diff"}]},
+ {"id": "veclit-form-benign", "kind": "benign", "edits": [{"patch": "/verif/benign/dewey-2/patch.diff"}]},
+ {"id": "slicepat-cut-two-past-match", "kind": "break", "edits": [{"patch": "/verif/benign/m-dewey-2/patch.diff"}, (D, "let inclusive = pattern[index + 1..].starts_with('=');", "let inclusive = pattern[index + 2..].starts_with('=');")], "expect": ["PANIC@dewey::Dewey::new#call:index"]},
+ {"id": "slicepat-third-record-without-length", "kind": "break", "edits": [{"patch": "/verif/benign/m-dewey-2/patch.diff"}, (D, "        let pkgname = pattern[0..deweyops[0].0].to_string();", "        let pkgname = pattern[0..deweyops[0].0].to_string();\n        let _third = deweyops[2].0;")], "expect": ["PANIC@dewey::Dewey::new#call:index"]},
  {"id": "probe-panic-division-by-len", "kind": "break", "edits": [(S, "        let slen = input_string.len();", "        let slen = input_string.len();\n        let _avg = slen / self.entries.len();")], "expect": ["PANIC"]},
  {"id": "probe-panic-remove-first-entry", "kind": "break", "edits": [(L, "        Ok(plist)\n    }\n\n    /**\n     * Return the package name as specified", "        if plist.entries.len() > 1000000 {\n            plist.entries.remove(0);\n        }\n        Ok(plist)\n    }\n\n    /**\n     * Return the package name as specified")], "expect": []},
 ]
